@@ -43,10 +43,29 @@ def spell_duration(rng, L):
     return rng.choice(forms)
 
 
-def gen_event(rng, i, now, job_exe, scale_target):
+def zoned(t, zone):
+    """epoch second T as the wall-clock text of ZONE, or None unless that reading names T and nothing else"""
+    from .C07 import local_candidates
+    import zoneinfo
+    z = zoneinfo.ZoneInfo(zone)
+    u = D.datetime(1970, 1, 1) + D.timedelta(seconds=t)
+    loc = u.replace(tzinfo=D.timezone.utc).astimezone(z).replace(tzinfo=None)
+    return loc.strftime("%Y%m%dT%H%M%S") if local_candidates(z, loc) == [u] else None
+
+
+def gen_event(rng, i, now, job_exe, scale_target, near=None):
     L = rng.choice(LIMITS + [rng.randint(1, 200), rng.randint(1, 5000000)])
     start = int(now) + 60 * rng.randint(1, 3) + rng.randint(0, 59)
     kind = rng.choice(["dtend", "duration", "duration", "dtend-date"])
+    if near is not None and rng.random() < 0.7:
+        # the window is written in wall-clock times of a zone whose clocks change shortly after NOW: the limit is the time
+        # that really passes between the two, whatever the clocks show
+        zone, tr = near
+        L = rng.choice([1, 59, 600, 3599, 3600, 3601, 5400, 7200, 7201, 86400, 90000, max(1, tr - start), max(1, tr - start + 1), tr - start + 1800])
+        ze = rng.choice([zone, zone, zone, "Asia/Tokyo", None])
+        a, b = zoned(start, zone), (zoned(start + L, ze) if ze else fmt_dt(start + L))
+        if a and b:
+            kind = "dtend-zoned"
     outlives = rng.random() < 0.6
     uid = "d%d@verif" % i
     lines = ["BEGIN:VEVENT", "UID:" + uid]
@@ -64,6 +83,10 @@ def gen_event(rng, i, now, job_exe, scale_target):
         lines.append("DTEND;VALUE=DATE:" + (d0 + D.timedelta(days=days)).strftime("%Y%m%d"))
         start = int((D.datetime(d0.year, d0.month, d0.day) - D.datetime(1970, 1, 1)).total_seconds())
         spec = "DTEND(date)-DTSTART(date)=%dd" % days
+    elif kind == "dtend-zoned":
+        lines.append("DTSTART;TZID=%s:%s" % (zone, a))
+        lines.append(("DTEND;TZID=%s:%s" % (ze, b)) if ze else "DTEND:" + b)
+        spec = "%s = %ds%s" % (" ".join(lines[-2:]), L, " across the change of clocks" if start < tr <= start + L else "")
     elif kind == "dtend":
         lines.append("DTSTART:" + fmt_dt(start))
         lines.append("DTEND:" + fmt_dt(start + L))
@@ -83,8 +106,16 @@ def pipeline(root, part, rng, tier):
     d = tempfile.mkdtemp(prefix="c14-")
     try:
         now = float(rng.randint(1200000000, 1600000000)) + 0.5
+        near = None
+        if rng.random() < 0.35:
+            from .C07 import transitions
+            zone = rng.choice(["Europe/Berlin", "America/New_York", "Australia/Sydney", "America/Santiago", "Australia/Lord_Howe", "Europe/London"])
+            trs = [int((t - D.datetime(1970, 1, 1)).total_seconds()) for t in transitions(zone)]
+            tr = rng.choice([t for t in trs if 1200000000 < t < 1600000000])
+            now = float(tr - rng.choice([300, 1000, 3000, 3700, 7000, 20000])) + 0.5
+            near = (zone, tr)
         job = build.exe(root, "asan", "h_job")
-        evs = [gen_event(rng, i, now, job, 0.25) for i in range(rng.choice([1, 3, 6]))]
+        evs = [gen_event(rng, i, now, job, 0.25, near) for i in range(rng.choice([1, 3, 6]))]
         fn = os.path.join(d, "in.ics")
         open(fn, "w").write("BEGIN:VCALENDAR\nVERSION:2.0\n" + "\n".join(e["text"] for e in evs) + "\nEND:VCALENDAR\n")
         env = dict(os.environ)
@@ -112,6 +143,10 @@ def pipeline(root, part, rng, tier):
         for ev in evs:
             part.evaluations += 1
             L = ev["L"]
+            if ev["kind"] == "dtend-zoned":
+                part.count("windows_in_wall_clock_times")
+                if "across" in ev["spec"]:
+                    part.count("windows_across_a_change_of_clocks")
             wit = {"input": open(fn).read(), "submitted": q.stdout.decode("latin1")[:1500], "event": ev["text"]}
             req = vt.get(ev["uid"])
             if req is None:
